@@ -861,6 +861,15 @@ func (w *World) Apply(a Action) (rec *ScanRecord, ok bool) {
 		} else {
 			ok = false
 		}
+	case "bumpAfterRefresh": // during the next scan, right after escalator has read the group, somebody else raises its desired capacity by N
+		if g := w.ASG(a.Group); g != nil {
+			if w.A.BumpAfterDescribe == nil {
+				w.A.BumpAfterDescribe = map[string]int64{}
+			}
+			w.A.BumpAfterDescribe[g.Name] = int64(a.N)
+		} else {
+			ok = false
+		}
 	case "relabel": // Flag: the key is dropped altogether
 		if n := w.K.Nodes[a.Node]; n != nil {
 			if n.Labels == nil {
